@@ -135,6 +135,23 @@ def handle (s : Store) (ws : List String) : Option (Store × String) :=
       | _ => pure (s', "panic")
     | (.notfound, s') => pure (s', "notfound")
     | (.panic, s') => pure (s', "panic")
+  | ["pverify", root, pk, k, v, vroot] => do
+    -- Tree.ConstructProof(pk) at root, then Proof.Verify(k, v, vroot) directly
+    let root ← pBytes root
+    let pk ← pBytes pk
+    let k ← pBytes k
+    let v ← pBytes v
+    let vroot ← pBytes vroot
+    match s.loadRoot root with
+    | (.ok none, s') => pure (s', "noproof")
+    | (.ok (some n), s') =>
+      let (n', rootKey) := hashRoot C01.Drv.H s'.cfg 0 n
+      match constructProof n' pk with
+      | .absent => pure (s', "noproof")
+      | .found _ lh ins => pure (s', b01 (Proof.verify C01.Drv.H ⟨lh, ins, rootKey⟩ k v vroot))
+      | .nohash => pure (s', "panic")
+    | (.notfound, s') => pure (s', "notfound")
+    | (.panic, s') => pure (s', "panic")
   | ["verify", root, k, v, p] => do
     let root ← pBytes root
     let k ← pBytes k
